@@ -105,9 +105,56 @@ def run(ctx, ck):
     ok = len(ids) == 1 and norm(ids[0].value) == 'np.eye(3)' and \
         sorted(norm(t) for t in ids[0].targets) == sorted(found.values())
     ck.ob('R-LIT.rotation', 'identity-default', ok, f.loc(), 'unused axes default to the identity')
+    # every matrix attribute is the product Z @ Y @ X or its transpose X.T @ Y.T @ Z.T
+    def mat_chain(e):
+        out = []
+
+        def rec(x):
+            if isinstance(x, ast.BinOp) and isinstance(x.op, ast.MatMult):
+                rec(x.left)
+                rec(x.right)
+            else:
+                out.append(norm(x))
+        rec(e)
+        return out
+    if len(found) == 3:
+        fwd = [found[2], found[1], found[0]]
+        bwd = [found[0] + '.T', found[1] + '.T', found[2] + '.T']
+        mats = {}
+        for s_ in f.body():
+            if isinstance(s_, ast.Assign) and isinstance(s_.targets[0], ast.Attribute) and \
+               any(isinstance(x, ast.BinOp) and isinstance(x.op, ast.MatMult) for x in ast.walk(s_.value)):
+                ch = mat_chain(s_.value)
+                kind = 'forward' if ch == fwd else ('transpose' if ch == bwd else None)
+                mats[norm(s_.targets[0])] = kind
+                if norm(s_.targets[0]) != 'self.m':
+                    ck.ob('R-LIT.rotation', 'matrix|%s' % norm(s_.targets[0]), kind is not None, f.loc(s_),
+                          '%s = %s is %s' % (norm(s_.targets[0]), ' @ '.join(ch), kind or
+                                             'neither Z@Y@X nor its transpose X.T@Y.T@Z.T'))
+    else:
+        mats = {}
     ap = m.func('mininec.Rotation_Matrix.apply')
-    ok = [norm(s) for s in ap.body()] == ['return self.m @ vec']
-    ck.ob('R-LIT.rotation', 'apply', ok, ap.loc(), 'apply(vec) = self.m @ vec')
+    rets = [r_ for r_ in walk_no_nested(ap.node) if isinstance(r_, ast.Return) and r_.value is not None]
+    ok = bool(rets)
+    forms = []
+    for r_ in rets:
+        v = r_.value
+        t = norm(v)
+        good = False
+        # M @ v  (forward matrix on the left) ; v @ Mt (transpose on the right) ; dot forms
+        if isinstance(v, ast.BinOp) and isinstance(v.op, ast.MatMult):
+            l_, r2 = norm(v.left), norm(v.right)
+            if mats.get(l_) == 'forward' or l_ == 'self.m':
+                good = True
+            elif mats.get(r2) == 'transpose' or r2 == 'self.m.T':
+                good = True
+        elif isinstance(v, ast.Call) and (dotted(v.func) or '') in ('np.dot', 'np.matmul') and len(v.args) == 2:
+            good = norm(v.args[0]) == 'self.m' or norm(v.args[1]) == 'self.m.T'
+        elif isinstance(v, ast.Call) and norm(v.func) == 'self.m.dot':
+            good = True
+        forms.append(t)
+        ok = ok and good
+    ck.ob('R-LIT.rotation', 'apply', ok, ap.loc(), 'apply(vec) returns %s' % forms)
 
     # ---------------------------------------------------------------- D2
     expect = {
